@@ -289,9 +289,11 @@ Definition drop_calls (st : rstate) : list hcall :=
 Definition persist_metadata (st : rstate) : gmap N cs_data := r_meta st.
 
 (** [new]: re-intern all metadata (registering what the arena has not seen), adopt the rest. *)
+Definition restore_step (acc : rstate * world * list hcall) (kv : N * cs_data)
+  : rstate * world * list hcall :=
+  let '(st, w, calls) := acc in
+  let '(st', w', c) := on_new_call_site st w (fst kv) (snd kv) in (st', w', calls ++ c).
+
 Definition restore (w : world) (md : gmap N cs_data) (spans : gmap N span_data) (local : gmap N N)
   : rstate * world * list hcall :=
-  fold_left (fun '(st, w, calls) '(id, d) =>
-               let '(st', w', c) := on_new_call_site st w id d in (st', w', calls ++ c))
-            (map_to_list md)
-            (mk_rs ∅ spans local ∅ ∅, w, []).
+  fold_left restore_step (map_to_list md) (mk_rs ∅ spans local ∅ ∅, w, []).
